@@ -56,3 +56,48 @@ DRAFT_CONTRACTS = {   # not registered: inductive step stays `unknown` (quantifi
         modifies=[],
     ),
 }
+
+
+# ----------------------------------------------- row predicates of get_valid_idx_combinations (nested functions)
+def _row_contract(strict):
+    op = '<' if strict else '<='
+    name = '_check_gt' if strict else '_check_gte'
+    return dict(
+        properties=['C13'],
+        types={'row': 'Np1[Int]'},
+        returns='Bool',
+        loops={'for i_value in range(1, len(row))': dict(index='k', invariant={
+            'ordered-so-far': f'forall(a, 1, k + 1, row[a - 1] {op} row[a])'})},
+        ensures={
+            # statement of C13: unordered = non-decreasing in choice order; non-replacing = strictly increasing
+            ('strictly-increasing' if strict else 'non-decreasing') + '-rows-accepted':
+                ('property', f'implies(forall(a, 1, len(row), row[a - 1] {op} row[a]), result)'),
+            'other-rows-rejected': ('property', f'implies(result, forall(a, 1, len(row), row[a - 1] {op} row[a]))'),
+        },
+        modifies=[],
+    )
+
+
+CONTRACTS = {
+    F + 'get_valid_idx_combinations.<locals>._check_gte': _row_contract(False),
+    F + 'get_valid_idx_combinations.<locals>._check_gt': _row_contract(True),
+}
+
+
+def _domain_rows(strict):
+    def dom(n):
+        import itertools
+        import numpy as np
+        from adsg_core.graph.choice_constraints import get_valid_idx_combinations, ChoiceConstraintType
+        # the nested predicate is observed through the function that owns it: one all-active row, two+ columns
+        ctype = ChoiceConstraintType.UNORDERED_NOREPL if strict else ChoiceConstraintType.UNORDERED
+        for ln in (2, 3, 4):
+            for row in itertools.product(range(3), repeat=ln):
+                arr = np.array([list(row)])
+                yield ({'row': list(row)}, (lambda arr=arr: len(get_valid_idx_combinations(arr, ctype)) == 1), {},
+                       f'get_valid_idx_combinations({arr.tolist()}, {ctype.name})')
+    return dom
+
+
+DOMAIN = {F + 'get_valid_idx_combinations.<locals>._check_gte': _domain_rows(False),
+          F + 'get_valid_idx_combinations.<locals>._check_gt': _domain_rows(True)}
